@@ -87,6 +87,53 @@ theorem splitEscLoop_noPanic (str : Bytes) (sep esc : UInt8) (p : Bool) (fuel i 
       repeat' split
       all_goals exact ih _ _ _ _
 
+/-- The fuel of `splitEscLoop` is not a semantic parameter: once it covers the bytes still to be read
+    (`str.length ≤ i + fuel`), any extra fuel gives the same result -- the loop ends through its own
+    test `i ≥ len(str)`, never by running out of fuel.  (Review: "fuel sufficiency unstated".) -/
+theorem splitEscLoop_fuel (str : Bytes) (sep esc : UInt8) (p : Bool) (fuel k i : Nat) (sb : Bytes)
+    (escaped : Bool) (parts : List Bytes) (h : str.length ≤ i + fuel) :
+    splitEscLoop str sep esc p (fuel + k) i sb escaped parts =
+      splitEscLoop str sep esc p fuel i sb escaped parts := by
+  induction fuel generalizing i sb escaped parts with
+  | zero =>
+    have hi : i ≥ str.length := by omega
+    cases k with
+    | zero => rfl
+    | succ k =>
+      rw [Nat.zero_add]
+      unfold splitEscLoop
+      rw [if_pos hi]
+  | succ fuel ih =>
+    have e : fuel + 1 + k = (fuel + k) + 1 := by omega
+    rw [e]
+    unfold splitEscLoop
+    split
+    · rfl
+    · cases idxC str i with
+      | error e => rfl
+      | ok c =>
+        simp only [bind, Except.bind]
+        repeat' split
+        all_goals exact ih _ _ _ _ (by omega)
+
+/-- `fuel = len(str)` (the value `splitWithEscapeCharacter` passes) always suffices: with ANY larger
+    fuel the loop started at index 0 returns the same builder and parts. -/
+theorem splitEscLoop_len_suffices (str : Bytes) (sep esc : UInt8) (p : Bool) (fuel : Nat)
+    (hf : str.length ≤ fuel) (sb : Bytes) (escaped : Bool) (parts : List Bytes) :
+    splitEscLoop str sep esc p fuel 0 sb escaped parts =
+      splitEscLoop str sep esc p str.length 0 sb escaped parts := by
+  obtain ⟨k, rfl⟩ : ∃ k, fuel = str.length + k := ⟨fuel - str.length, by omega⟩
+  exact splitEscLoop_fuel str sep esc p str.length k 0 sb escaped parts (by omega)
+
+/-- With sufficient fuel the loop consumes the whole string: started anywhere with enough fuel it
+    agrees with the run that has exactly the remaining length as fuel. -/
+theorem splitEscLoop_exact (str : Bytes) (sep esc : UInt8) (p : Bool) (fuel i : Nat) (sb : Bytes)
+    (escaped : Bool) (parts : List Bytes) (h : str.length ≤ i + fuel) :
+    splitEscLoop str sep esc p fuel i sb escaped parts =
+      splitEscLoop str sep esc p (str.length - i) i sb escaped parts := by
+  obtain ⟨k, rfl⟩ : ∃ k, fuel = (str.length - i) + k := ⟨fuel - (str.length - i), by omega⟩
+  exact splitEscLoop_fuel str sep esc p (str.length - i) k i sb escaped parts (by omega)
+
 theorem splitWithEscapeCharacter_noPanic (str : Bytes) (sep esc : UInt8) (p : Bool) :
     splitWithEscapeCharacter str sep esc p ≠ .error .panic := by
   unfold splitWithEscapeCharacter
